@@ -229,7 +229,8 @@ func execFmtCase(c *Sx, env *execEnv) (*Sx, []Violation) {
 				cargs = append(cargs, "--exposure=false")
 			}
 			cargs = append(cargs, fmt.Sprintf("--fail=%v", stop))
-			_ = os.Remove(file)
+			// the -f file already exists and is longer than any report: the command must replace it, not overwrite its head
+			_ = os.WriteFile(file, []byte(strings.Repeat("stale report line\n", 4096)), 0o600)
 			stdout, cerr := cli.VerifRun(cargs)
 			if (cerr != nil) != (l1.err != nil) {
 				rep("C18", "cli-error-differs", fmt.Sprintf("format %s: library error %v, command error %v", f, l1.err, cerr))
@@ -239,7 +240,7 @@ func execFmtCase(c *Sx, env *execEnv) (*Sx, []Violation) {
 				}
 				fb, ferr := os.ReadFile(file)
 				if ferr != nil || string(fb) != stdout {
-					rep("C18", "cli-file-differs", fmt.Sprintf("format %s: -f file differs from stdout (%v)", f, ferr))
+					rep("C18", "cli-file-differs", fmt.Sprintf("format %s: -f file (%d bytes, previously holding an older, longer report) differs from stdout (%d bytes) (%v)", f, len(fb), len(stdout), ferr))
 				}
 			}
 			_ = os.Remove(file)
@@ -313,7 +314,11 @@ func execFmtCase(c *Sx, env *execEnv) (*Sx, []Violation) {
 			}
 			for _, f := range diffFormats {
 				mk := func() (string, error, diff.ConnectivityDiff) {
-					da := diff.NewDiffAnalyzer(diff.WithLogger(nullLogger{}), diff.WithOutputFormat(f), diff.WithArgNames("dir1", "dir2"))
+					dopts := []diff.DiffAnalyzerOption{diff.WithLogger(nullLogger{}), diff.WithOutputFormat(f), diff.WithArgNames("dir1", "dir2")}
+					if stop {
+						dopts = append(dopts, diff.WithStopOnError())
+					}
+					da := diff.NewDiffAnalyzer(dopts...)
 					cd, err := da.ConnDiffFromDirPaths(dir, dirB)
 					if err != nil {
 						return "", err, nil
@@ -328,15 +333,15 @@ func execFmtCase(c *Sx, env *execEnv) (*Sx, []Violation) {
 					rep("C08", "nondeterministic-diff-output", fmt.Sprintf("diff format %s: two runs differ", f))
 				}
 				file := filepath.Join(dir, "..", "dout-"+args[0].A+"-"+f)
-				_ = os.Remove(file)
-				stdout, cerr := cli.VerifRun([]string{"diff", "--dir1", dir, "--dir2", dirB, "-o", f, "-q", "-f", file, "--fail=false", "--dirpath", ""})
+				_ = os.WriteFile(file, []byte(strings.Repeat("stale report line\n", 4096)), 0o600)
+				stdout, cerr := cli.VerifRun([]string{"diff", "--dir1", dir, "--dir2", dirB, "-o", f, "-q", "-f", file, fmt.Sprintf("--fail=%v", stop), "--dirpath", ""})
 				if (cerr != nil) != (e1 != nil) {
 					rep("C18", "cli-diff-error-differs", fmt.Sprintf("diff format %s: library error %v, command error %v", f, e1, cerr))
 				} else if e1 == nil {
 					if stdout != o1 {
 						rep("C18", "cli-diff-stdout-differs", fmt.Sprintf("diff format %s: stdout is not the library string", f))
 					}
-					if fb, ferr := os.ReadFile(file); o1 != "" && (ferr != nil || string(fb) != stdout) {
+					if fb, ferr := os.ReadFile(file); ferr != nil || string(fb) != stdout {
 						rep("C18", "cli-diff-file-differs", fmt.Sprintf("diff format %s: -f file differs from stdout", f))
 					}
 				}
@@ -455,7 +460,7 @@ func checkDiffFormat(format, out string, cd diff.ConnectivityDiff) string {
 }
 
 func genFmtCase(r *Rng, id int, tier string) *Sx {
-	cfg := &genCfg{anp: r.P(30), banp: true, pods: true, ingress: r.P(35), namedOnIPPct: 0, maxNP: 4, maxWl: 5}
+	cfg := &genCfg{anp: r.P(30), banp: true, pods: true, ingress: r.P(35), icNs: true, namedOnIPPct: 0, maxNP: 4, maxWl: 5}
 	exposure := r.P(40)
 	if exposure {
 		cfg.anp, cfg.banp = false, false
